@@ -196,6 +196,7 @@ func init() {
 		Skip: vmSkip,
 		Run: func(c *Ctx) {
 			stringsFuncOracle(c)
+			invSeqOracle(c)
 			c.Rule("generated scripts (gen/invoke.go: fixed/variadic functions, closures over a counter, global updaters, recursion, nested invocation, throwing and failing functions, functions importing modules, try/finally bodies, closures made in loops; accepted arities only) run twice: in-script calls vs Go-side ugo.Invoker calls (unpooled, pooled, one Invoker reused) x optimizer on/off; oracle: equal result/error, globals, captured state; lock-step of both variants with the Lean model (`vm` / `inv` requests); distinct = distinct (mode, shape, outcome class)")
 			n := 250 * c.Scale
 			for i := 0; i < 5; i++ {
